@@ -4,6 +4,7 @@
 mod prng;
 mod wire;
 mod c01;
+mod c03;
 mod c05;
 mod c06;
 mod c10;
@@ -27,6 +28,7 @@ fn main() {
     let argv: Vec<String> = std::env::args().collect();
     if argv.len() < 2 { eprintln!("usage: sfv_harness <component> --seed N --tier quick|thorough --out DIR [--replay FILE]"); std::process::exit(2); }
     let comp = argv[1].clone();
+    if comp == "reader-child" { std::panic::set_hook(Box::new(|_| {})); c01::child_main(); return; }
     let mut a = Args { seed: 1, tier: "quick".into(), out: ".".into(), replay: None, n: None, corpus: None };
     let mut i = 2;
     while i < argv.len() {
@@ -50,6 +52,9 @@ fn main() {
     std::panic::set_hook(Box::new(|_| {}));
     match comp.as_str() {
         "c01" => c01::run(&a, &mut out),
+        "c08" => c01::run_c08(&a, &mut out),
+        "c02" => c03::run(&a, &mut out, true),
+        "c03" => c03::run(&a, &mut out, false),
         "c05" => c05::run(&a, &mut out),
         "c06" => c06::run(&a, &mut out),
         "c10" => c10::run(&a, &mut out),
